@@ -38,10 +38,14 @@ type gridRunner struct {
 	jobs     []*job
 	seen  map[string]bool
 	calls int
+	hangs int // statements that did not answer: their goroutines keep spinning, so a grid gives up after three
 }
 
 // exec: outcome class and the printed result
 func (r *gridRunner) exec(sql string) (class string, out string, msg string) {
+	if r.hangs >= 3 {
+		return "skipped", "", "the grid gave up after three statements that did not end"
+	}
 	r.calls++
 	r.o.Eval()
 	type res struct{ c, out, msg string }
@@ -66,6 +70,7 @@ func (r *gridRunner) exec(sql string) (class string, out string, msg string) {
 	case x := <-ch:
 		return x.c, x.out, x.msg
 	case <-time.After(10 * time.Second):
+		r.hangs++
 		r.p = hc.NewProc("")
 		if r.setup != "" {
 			_, _ = r.p.Exec(r.setup)
